@@ -171,7 +171,7 @@ func run(sc Scenario, dir string) world.Verdict {
 			return world.Fail("C13/start", "aggregator does not start: %v", err)
 		}
 		p.DA.KindOf = sw.KindOf
-		seq, err := single.NewSequencerWithQueueSize(p.Ctx, world.Logger(), p.Raw, p.DA, []byte(p.Opts.ChainID), o.BlockTime, nil, true, 1000)
+		seq, err := single.NewSequencerWithQueueSize(p.Ctx, world.Logger(), p.Raw, p.DA, []byte(p.Opts.ChainID), o.BlockTime, seqMetrics(), true, 1000)
 		if err != nil {
 			return world.Fail("C13/start", "sequencer does not start: %v", err)
 		}
@@ -440,3 +440,10 @@ func TestC13Virtual(t *testing.T) {
 }
 
 var _ = fmt.Sprint
+
+// seqMetrics are the sequencing layer's metrics as the applications pass them when instrumentation is off
+// (discard collectors; the sequencer then goes through its whole metrics path, as in a real node).
+func seqMetrics() *single.Metrics {
+	m, _ := single.NopMetrics()
+	return m
+}
